@@ -23,11 +23,8 @@ theorem hdKey_eq (t : ThreadId) : hdKey t = t := by
   simp [hdKey, Gen.headerDictTsThreadLocal]
 
 /-- accesses of attributes that are thread-local by the generated lists (or no attribute access) -/
-def Access.attrOk : Access → Prop
-  | .fget o k _ => ∀ t a, k ∈ propsOf (o.inst t a).cls
-  | .fset o k _ => ∀ t a, k ∈ propsOf (o.inst t a).cls
-  | .fdel o k => ∀ t a, k ∈ propsOf (o.inst t a).cls
-  | _ => True
+@[simp] theorem Obj.inst_cls (o : Obj) (t : ThreadId) (a : AppId) : (o.inst t a).cls = o.cls := by
+  cases o <;> rfl
 
 /-! ### agreement on a slice -/
 
@@ -286,19 +283,19 @@ theorem plan_agree {P S R} {h h' : Heap} (t : ThreadId) (a : AppId) (acc : Acces
   | fget o k dst =>
     simp only [plan, storeOf_perInstance, hst]
     split
-    · cases hs : h.hasStore (o.inst t a) <;> simp [hs, etls]
+    · cases h.hasStore (o.inst t a) <;> simp [etls]
     · rename_i hk
       rcases hsl with hok | hS
-      · exact absurd (hok t a) hk
+      · exact absurd (by simpa [Access.attrOk] using hok) hk
       · rw [g.slots _ k (hS o)]
   | fset o k src => simp only [plan, storeOf_perInstance, hst, esv]
   | fdel o k =>
     simp only [plan, storeOf_perInstance, hst]
     split
-    · cases hs : h.hasStore (o.inst t a) <;> simp [hs, etls]
+    · cases h.hasStore (o.inst t a) <;> simp [etls]
     · rename_i hk
       rcases hsl with hok | hS
-      · exact absurd (hok t a) hk
+      · exact absurd (by simpa [Access.attrOk] using hok) hk
       · rw [g.slots _ k (hS o)]
   | hdGet dst => simp only [plan, ehd]
   | hdSet src => simp only [plan, esv]
@@ -307,5 +304,354 @@ theorem plan_agree {P S R} {h h' : Heap} (t : ThreadId) (a : AppId) (acc : Acces
   | dUpdate r src => simp only [plan, erd]
   | dCopy r dst => simp only [plan, erd, enx]
   | newCopy => simp only [plan, enc]
+
+theorem regDict_ok {h : Heap} {t : ThreadId} {a : AppId} {r : Reg} {o : Oid} {d : Dict}
+    (hr : regDict h t a r = .ok (o, d)) : h.regs t a r = some (.dict o) := by
+  unfold regDict at hr
+  cases hx : h.regs t a r with
+  | none => rw [hx] at hr; simp at hr
+  | some x =>
+    rw [hx] at hr
+    cases x with
+    | plain v => simp at hr
+    | dict o' =>
+      simp only [] at hr
+      cases hd : h.dicts o' with
+      | none => rw [hd] at hr; simp at hr
+      | some d' => rw [hd] at hr; simp only [Except.ok.injEq, Prod.mk.injEq] at hr; rw [hr.1]
+
+/-- every update of a step of a context outside the slice lies outside the slice -/
+theorem plan_outside {P S R} {h : Heap} (t : ThreadId) (a : AppId) (acc : Access)
+    (ow : Own R h) (hnp : ¬ P t a) (hS : ∀ o : Obj, ¬ S (o.inst t a))
+    (hRP : ∀ o, R t a o → ¬ P o.thread o.app) :
+    ∀ u ∈ (plan .perInstance t a h acc).1, u.outside P S := by
+  have hreg : ∀ r o d, regDict h t a r = .ok (o, d) → ¬ P o.thread o.app := fun r o d hr =>
+    hRP o (ow.regs t a r o (regDict_ok hr))
+  cases acc with
+  | initHead o =>
+    simp only [plan]
+    split <;> intro u hu <;> simp at hu
+    subst hu; exact hS o
+  | initNone o k =>
+    simp only [plan, storeOf_perInstance]
+    split
+    · rename_i s hs
+      intro u hu; simp at hu; subst hu
+      split at hs
+      · simp only [Option.some.injEq] at hs; subst hs; simpa [Upd.outside] using hnp
+      · simp at hs
+    · intro u hu; simp at hu
+  | fget o k dst =>
+    simp only [plan]
+    split
+    · split
+      · split
+        · intro u hu; simp at hu; subst hu; exact hnp
+        · intro u hu; simp at hu
+      · intro u hu; simp at hu
+    · split
+      · intro u hu; simp at hu; subst hu; exact hnp
+      · intro u hu; simp at hu
+  | fset o k src =>
+    simp only [plan, storeOf_perInstance]
+    split
+    · intro u hu; simp at hu
+    · split
+      · split
+        · rename_i s hs
+          intro u hu; simp at hu; subst hu
+          split at hs
+          · simp only [Option.some.injEq] at hs; subst hs; simpa [Upd.outside] using hnp
+          · simp at hs
+        · intro u hu; simp at hu
+      · intro u hu; simp at hu; subst hu; exact hS o
+  | fdel o k =>
+    simp only [plan, storeOf_perInstance]
+    split
+    · split
+      · rename_i s hs
+        split
+        · intro u hu; simp at hu; subst hu
+          split at hs
+          · simp only [Option.some.injEq] at hs; subst hs; simpa [Upd.outside] using hnp
+          · simp at hs
+        · intro u hu; simp at hu
+      · intro u hu; simp at hu
+    · split
+      · intro u hu; simp at hu; subst hu; exact hS o
+      · intro u hu; simp at hu
+  | hdGet dst =>
+    simp only [plan]
+    split
+    · intro u hu; simp at hu; subst hu; exact hnp
+    · intro u hu; simp at hu
+  | hdSet src =>
+    simp only [plan]
+    split
+    · intro u hu; simp at hu; subst hu; simpa [Upd.outside, hdKey_eq] using hnp
+    · intro u hu; simp at hu
+  | dNew dst d =>
+    simp only [plan]
+    intro u hu; simp at hu
+    rcases hu with rfl | rfl | rfl <;> exact hnp
+  | dOp r op =>
+    simp only [plan]
+    split
+    · rename_i o d hr
+      intro u hu; simp at hu; subst hu; exact hreg r o d hr
+    · intro u hu; simp at hu
+  | dUpdate r src =>
+    simp only [plan]
+    split
+    · rename_i o d _ e hr _
+      intro u hu; simp at hu; subst hu; exact hreg r o d hr
+    · intro u hu; simp at hu
+    · intro u hu; simp at hu
+  | dCopy r dst =>
+    simp only [plan]
+    split
+    · intro u hu; simp at hu
+      rcases hu with rfl | rfl | rfl <;> exact hnp
+    · intro u hu; simp at hu
+  | newCopy =>
+    simp only [plan]
+    intro u hu; simp at hu; subst hu; exact hnp
+
+/-! ### ownership is kept -/
+
+/-- the value an update writes is related by `R` to the context of the cell written -/
+def Upd.keeps (R : ThreadId → AppId → Oid → Prop) : Upd → Prop
+  | .tls i u _ (some (.dict o)) => R u i.app o
+  | .slot i _ (some (.dict o)) => ∀ u, R u i.app o
+  | .hd a u (.dict o) => R u a o
+  | .reg t a _ (.dict o) => R t a o
+  | _ => True
+
+theorem Own.apply {R} {h : Heap} (ow : Own R h) (u : Upd) (hk : u.keeps R) : Own R (u.apply h) := by
+  cases u with
+  | tls i t k v =>
+    refine { ow with tls := ?_ }
+    intro j w k' o
+    simp only [Upd.apply, upd3]
+    split
+    · rename_i hc
+      obtain ⟨rfl, rfl, rfl⟩ := hc
+      intro hv; subst hv; exact hk
+    · exact ow.tls _ _ _ _
+  | store i => exact { ow with }
+  | slot i k v =>
+    refine { ow with slots := ?_ }
+    intro j k' o w
+    simp only [Upd.apply, upd2]
+    split
+    · rename_i hc
+      obtain ⟨rfl, rfl⟩ := hc
+      intro hv; subst hv; exact hk w
+    · exact ow.slots _ _ _ _
+  | cell c i => exact { ow with }
+  | hd a t v =>
+    refine { ow with hd := ?_ }
+    intro b w o
+    simp only [Upd.apply, upd2]
+    split
+    · rename_i hc
+      obtain ⟨rfl, rfl⟩ := hc
+      intro hv
+      simp only [Option.some.injEq] at hv
+      subst hv; exact hk
+    · exact ow.hd _ _ _
+  | dict o d => exact { ow with }
+  | next t a => exact { ow with }
+  | ncopies t a => exact { ow with }
+  | reg t a r v =>
+    refine { ow with regs := ?_ }
+    intro w b r' o
+    simp only [Upd.apply, upd3]
+    split
+    · rename_i hc
+      obtain ⟨rfl, rfl, rfl⟩ := hc
+      intro hv
+      simp only [Option.some.injEq] at hv
+      subst hv; exact hk
+    · exact ow.regs _ _ _ _
+
+theorem Own.apply_all {R} {h : Heap} (ow : Own R h) (us : List Upd) (hk : ∀ u ∈ us, u.keeps R) :
+    Own R (applyAll h us) := by
+  induction us generalizing h with
+  | nil => exact ow
+  | cons u us ih =>
+    exact ih (ow.apply u (hk u (by simp))) (fun u' hu' => hk u' (by simp [hu']))
+
+theorem srcVal_own {R} {h : Heap} (ow : Own R h) (t : ThreadId) (a : AppId) (s : Src) (o : Oid)
+    (hs : srcVal h t a s = some (.dict o)) : R t a o := by
+  cases s with
+  | lit v => simp [srcVal] at hs
+  | reg r => exact ow.regs t a r o hs
+
+/-- every update a step decides on keeps the ownership relation; `hnew`: a context is related to
+the objects it creates; `hsl`: plain slots are only written when `R` does not depend on the thread -/
+theorem plan_keeps {R} {h : Heap} (t : ThreadId) (a : AppId) (acc : Access) (ow : Own R h)
+    (hnew : ∀ n, R t a ⟨t, a, n⟩)
+    (hsl : acc.attrOk ∨ ∀ (o : Oid) (u u' : ThreadId), R u a o → R u' a o) :
+    ∀ u ∈ (plan .perInstance t a h acc).1, u.keeps R := by
+  cases acc with
+  | initHead o =>
+    simp only [plan]
+    split <;> intro u hu <;> simp at hu
+    subst hu; trivial
+  | initNone o k =>
+    simp only [plan]
+    split
+    · intro u hu; simp at hu; subst hu; trivial
+    · intro u hu; simp at hu
+  | fget o k dst =>
+    simp only [plan, storeOf_perInstance]
+    split
+    · split
+      · rename_i s hs
+        split
+        · rename_i x hx
+          intro u hu; simp at hu; subst hu
+          split at hs
+          · simp only [Option.some.injEq] at hs; subst hs
+            cases x with
+            | plain v => trivial
+            | dict o' => simpa [Upd.keeps] using ow.tls _ _ _ _ hx
+          · simp at hs
+        · intro u hu; simp at hu
+      · intro u hu; simp at hu
+    · split
+      · rename_i x hx
+        intro u hu; simp at hu; subst hu
+        cases x with
+        | plain v => trivial
+        | dict o' => simpa [Upd.keeps] using ow.slots _ _ _ t hx
+      · intro u hu; simp at hu
+  | fset o k src =>
+    simp only [plan, storeOf_perInstance]
+    split
+    · intro u hu; simp at hu
+    · rename_i x hx
+      split
+      · split
+        · rename_i s hs
+          intro u hu; simp at hu; subst hu
+          split at hs
+          · simp only [Option.some.injEq] at hs; subst hs
+            cases x with
+            | plain v => trivial
+            | dict o' => simpa [Upd.keeps] using srcVal_own ow t a src o' hx
+          · simp at hs
+        · intro u hu; simp at hu
+      · rename_i hk
+        intro u hu; simp at hu; subst hu
+        cases x with
+        | plain v => trivial
+        | dict o' =>
+          rcases hsl with hok | hind
+          · exact absurd (by simpa [Access.attrOk] using hok) hk
+          · intro w
+            simpa using hind o' t w (srcVal_own ow t a src o' hx)
+  | fdel o k =>
+    simp only [plan]
+    split
+    · split
+      · split
+        · intro u hu; simp at hu; subst hu; trivial
+        · intro u hu; simp at hu
+      · intro u hu; simp at hu
+    · split
+      · intro u hu; simp at hu; subst hu; trivial
+      · intro u hu; simp at hu
+  | hdGet dst =>
+    simp only [plan]
+    split
+    · rename_i x hx
+      intro u hu; simp at hu; subst hu
+      cases x with
+      | plain v => trivial
+      | dict o' => simpa [Upd.keeps, hdKey_eq] using ow.hd a (hdKey t) o' hx
+    · intro u hu; simp at hu
+  | hdSet src =>
+    simp only [plan]
+    split
+    · rename_i x hx
+      intro u hu; simp at hu; subst hu
+      cases x with
+      | plain v => trivial
+      | dict o' => simpa [Upd.keeps, hdKey_eq] using srcVal_own ow t a src o' hx
+    · intro u hu; simp at hu
+  | dNew dst d =>
+    simp only [plan]
+    intro u hu; simp at hu
+    rcases hu with rfl | rfl | rfl
+    · trivial
+    · trivial
+    · exact hnew _
+  | dOp r op =>
+    simp only [plan]
+    split
+    · intro u hu; simp at hu; subst hu; trivial
+    · intro u hu; simp at hu
+  | dUpdate r src =>
+    simp only [plan]
+    split
+    · intro u hu; simp at hu; subst hu; trivial
+    · intro u hu; simp at hu
+    · intro u hu; simp at hu
+  | dCopy r dst =>
+    simp only [plan]
+    split
+    · intro u hu; simp at hu
+      rcases hu with rfl | rfl | rfl
+      · trivial
+      · trivial
+      · exact hnew _
+    · intro u hu; simp at hu
+  | newCopy =>
+    simp only [plan]
+    intro u hu; simp at hu; subst hu; trivial
+
+/-! ### the three facts about one step -/
+
+/-- a step keeps ownership -/
+theorem exec_own {R} {h : Heap} (t : ThreadId) (a : AppId) (acc : Access) (ow : Own R h)
+    (hnew : ∀ n, R t a ⟨t, a, n⟩)
+    (hsl : acc.attrOk ∨ ∀ (o : Oid) (u u' : ThreadId), R u a o → R u' a o) :
+    Own R (exec .perInstance t a acc h).1 :=
+  ow.apply_all _ (plan_keeps t a acc ow hnew hsl)
+
+/-- a step of a context outside the slice leaves the slice alone -/
+theorem exec_frame {P S R} {h : Heap} (t : ThreadId) (a : AppId) (acc : Access)
+    (ow : Own R h) (hnp : ¬ P t a) (hS : ∀ o : Obj, ¬ S (o.inst t a))
+    (hRP : ∀ o, R t a o → ¬ P o.thread o.app) :
+    Agree P S h (exec .perInstance t a acc h).1 :=
+  Agree.outside_all h _ (plan_outside t a acc ow hnp hS hRP)
+
+/-- a step of a context inside the slice: same result, agreement kept -/
+theorem exec_agree {P S R} {h h' : Heap} (t : ThreadId) (a : AppId) (acc : Access)
+    (g : Agree P S h h') (ow : Own R h) (hp : P t a)
+    (hRP : ∀ o, R t a o → P o.thread o.app)
+    (hst : ∀ o : Obj, h'.hasStore (o.inst t a) = h.hasStore (o.inst t a))
+    (hsl : acc.attrOk ∨ ∀ o : Obj, S (o.inst t a)) :
+    (exec .perInstance t a acc h').2 = (exec .perInstance t a acc h).2 ∧
+    Agree P S (exec .perInstance t a acc h).1 (exec .perInstance t a acc h').1 := by
+  have hpl := plan_agree t a acc g ow hp hRP hst hsl
+  simp only [exec, hpl]
+  exact ⟨trivial, g.apply_all _⟩
+
+/-- `_ts_props` slots are only ever set -/
+theorem exec_hasStore_mono (v : Variant) (t : ThreadId) (a : AppId) (acc : Access) (h : Heap) (i : Inst)
+    (hi : h.hasStore i = true) : (exec v t a acc h).1.hasStore i = true := by
+  have key : ∀ (us : List Upd) (h : Heap), h.hasStore i = true → (applyAll h us).hasStore i = true := by
+    intro us
+    induction us with
+    | nil => intro h hh; exact hh
+    | cons u us ih =>
+      intro h hh
+      apply ih
+      cases u <;> simp only [Upd.apply, hh]
+      simp only [upd]; split <;> simp [hh]
+  exact key _ h hi
 
 end Ombott.TsProps
